@@ -21,3 +21,17 @@ int w_pow_btc_c(const uint8_t* hash, uint32_t bits, const uint8_t* limit)
 __CPROVER_requires(FRESH32(hash) && FRESH32(limit))
 __CPROVER_assigns()
 __CPROVER_ensures((RET != 0) == (!NEG(bits) && !OVF(bits) && !TZERO(bits) && T_VS_LIMIT(bits, limit) <= 0 && H_VS_T(hash, bits) <= 0));
+
+/* VBK: accepted <=> the compact difficulty is not negative / overflowing / zero, is at least the minimum difficulty, and the block hash
+ * (24 stored bytes reversed, zero-extended to 256 bits) does not exceed the target = MAX_DIFFICULTY / difficulty (quotient abstracted) */
+extern uint8_t g_quot[32];
+extern uint8_t g_max[32];
+#define HB24(h, k) ((k) < 24 ? (uint64_t)(h)[23 - (k)] : (uint64_t)0)
+#define HW24(h, j) (HB24(h, 8 * (j)) | HB24(h, 8 * (j) + 1) << 8 | HB24(h, 8 * (j) + 2) << 16 | HB24(h, 8 * (j) + 3) << 24 | HB24(h, 8 * (j) + 4) << 32 | HB24(h, 8 * (j) + 5) << 40 | \
+                    HB24(h, 8 * (j) + 6) << 48 | HB24(h, 8 * (j) + 7) << 56)
+#define T_VS_MIN(b, l) LEX4(TW(b, 3), TW(b, 2), TW(b, 1), TW(b, 0), W(l, 3), W(l, 2), W(l, 1), W(l, 0))
+#define H24_VS_Q(h, q) LEX4(HW24(h, 3), HW24(h, 2), HW24(h, 1), HW24(h, 0), W(q, 3), W(q, 2), W(q, 1), W(q, 0))
+int w_pow_vbk_c(const uint8_t* hash, uint32_t bits, const uint8_t* mindiff, const uint8_t* quot)
+__CPROVER_requires(__CPROVER_is_fresh(hash, 24) && FRESH32(mindiff) && FRESH32(quot))
+__CPROVER_assigns(__CPROVER_object_whole(g_quot), __CPROVER_object_whole(g_max))
+__CPROVER_ensures((RET != 0) == (!NEG(bits) && !OVF(bits) && !TZERO(bits) && T_VS_MIN(bits, mindiff) >= 0 && H24_VS_Q(hash, quot) <= 0));
